@@ -41,9 +41,9 @@ def is_rational_fragment(t):
 
 def has_var(t):
     k = t['k']
-    if k == 'var':
-        return True
-    if k in ('const', 'par'):
+    if k in ('var', 'par'):
+        return True       # a parameter exponent is differentiated like a variable one (x**p = exp(p ln x), x > 0)
+    if k == 'const':
         return False
     if k == 'un':
         return has_var(t['a'])
